@@ -181,10 +181,6 @@ func judge(v *implVerdict, p *packages.Package, ts *ast.TypeSpec, bound map[stri
 	ms := types.NewMethodSet(T)
 	for i := 0; i < iface.NumMethods(); i++ {
 		m := iface.Method(i)
-		if !m.Exported() && m.Pkg() != p.Types {
-			v.Expect = "SKIP:unexported interface method of another package"
-			return
-		}
 		sel := ms.Lookup(m.Pkg(), m.Name())
 		if sel == nil || !types.Identical(sel.Type(), m.Type()) {
 			v.Missing = append(v.Missing, m.Name())
